@@ -121,3 +121,61 @@ Theorem C03_nine_shapes_at_the_boundary :
   map (fun sh => (emitted_by (sh 25%nat), emitted_by (sh 26%nat))) shapes = repeat (Some ([], 1%nat), Some ([tml], 1%nat)) 9.
 Proof. exact nine_shapes_at_the_boundary. Qed.
 Print Assumptions C03_nine_shapes_at_the_boundary.
+(* ---- 5 functions, 4 parameters, 5 variables: Gen/Counters.v (counting code translated from the source on every run),
+   Model/CounterTrace.v (functions / vars on top of the scope-trace model), token-level model of the parameter counter *)
+From NV Require Import Model.RuleChecks Model.CounterBase Gen.Counters Model.ScopeTrace Model.ScopeBody Model.CounterTrace
+  Proofs.ScopeTraceProofs Proofs.CounterProofs.
+Local Open Scope Z_scope.
+
+(* along any file the counter is the number of IsFuncDeclaration matches; TOO_MANY_FUNCS exactly at the matches that bring it
+   above the limit: k definitions give max(0, k - 5) diagnostics (prototypes, globals, user-defined types are other primaries) *)
+Theorem C03_funcs_iff : forall f, file f ->
+  exists q, crun cstate0 f = Some q /\ functions q = nfuncs f /\ fems q = tmf_list 0 f /\
+    zlen (fems q) = Z.max 0 (nfuncs f - functions_limit).
+Proof. exact funcs_iff. Qed.
+Print Assumptions C03_funcs_iff.
+
+Theorem C03_funcs_file : forall f, file f -> forall q, at_file_level q ->
+  exists q', crun q f = Some q' /\ at_file_level q' /\
+    functions q' = functions q + nfuncs f /\ fems q' = tmf_list (functions q) f ++ fems q.
+Proof. exact funcs_file. Qed.
+Print Assumptions C03_funcs_file.
+
+(* a function that starts with the declarations nls: the counter starts at 0 for this function whatever came before, one
+   TOO_MANY_VARS_FUNC for every declaration beyond the 5th *)
+Theorem C03_vars_iff : forall q nl gap nlo nls rest nlc, at_file_level q -> cinv q -> gap_ok gap -> body rest ->
+  forallb (fun x => negb (is_vdecl x)) rest = true ->
+  exists q', crun q (block_of (s_func nl) gap nlo (map vdecl nls ++ rest) nlc) = Some q' /\
+    vems q' = tmv_list 0 (map vdecl nls) ++ vems q /\
+    zlen (tmv_list 0 (map vdecl nls)) = Z.max 0 (zlen nls - vars_limit) /\
+    at_file_level q' /\ cinv q'.
+Proof. exact vars_iff. Qed.
+Print Assumptions C03_vars_iff.
+
+(* the parameter counter on `name ( l ) tp ...`: 1 + the number of top-level commas of l (parenthesised groups are skipped
+   whole, `(void)` and `()` count as one); TOO_MANY_ARGS, at the token after `)`, iff that exceeds 4 *)
+Theorem C03_args_iff : forall pre name lp l n rp tp post scope v,
+  t_type lp = ty_lpar -> t_type rp = ty_rpar -> plist l n ->
+  check_func_decl_args (pre ++ name :: lp :: l ++ rp :: tp :: post) scope (zlen pre) v
+  = Ok (args_start + n, zlen pre + 2 + zlen l + 1,
+        if args_start + n >? args_limit then [(s "TOO_MANY_ARGS", t_line tp, t_col tp)] else []).
+Proof. exact args_iff. Qed.
+Print Assumptions C03_args_iff.
+
+Theorem C03_skip_nest_group : forall pre o g c post, closer_of (t_type o) = Some (t_type c) -> bal g ->
+  skip_nest (pre ++ o :: g ++ c :: post) (zlen pre) = Ok (zlen pre + 1 + zlen g).
+Proof. exact skip_nest_group. Qed.
+Print Assumptions C03_skip_nest_group.
+
+Theorem C03_counter_limits_tie :
+  NV.Gen.Limits.limits_check_functions_count = [("context.scope.functions"%string, ">"%string, functions_limit)] /\
+  NV.Gen.Limits.limits_check_variable_declaration = [("context.scope.vars"%string, ">"%string, vars_limit)] /\
+  NV.Gen.Limits.limits_check_func_declaration = [("arg"%string, ">"%string, args_limit)].
+Proof. exact counter_limits_tie. Qed.
+Print Assumptions C03_counter_limits_tie.
+
+Theorem C03_counters_at_the_boundary :
+  map (fun k => match crun cstate0 (file_of k) with Some q => Some (functions q, fems q) | None => None end) [5%nat; 6%nat; 8%nat]
+  = [Some (5, []); Some (6, [tmf]); Some (8, [tmf; tmf; tmf])].
+Proof. exact funcs_at_the_boundary. Qed.
+Print Assumptions C03_counters_at_the_boundary.
